@@ -356,13 +356,13 @@ def run(tier):
     tasks = [(functools.partial(execute_b, v), check_b, b) for v, b in vb]
     execs = 0
     outcomes = 0
-    for (v, b), r in zip(vb, scheddfs.explore_many(tasks)):
+    for (v, b), r in zip(vb, (scheddfs.explore_many(tasks) if tier != "thorough" else scheddfs.explore_many_capped(tasks, 1, 1500))):
         execs += r["executions"]
         outcomes += len(r["outcomes"])
         for (key, detail), choices in r["violations"]:
             rep.add(Violation(key, f"[callers {v[0]} script {v[1]} same-start {v[2]} bound {b}] schedule {choices}: {detail}",
                               {"variant": [list(v[0]), v[1], v[2]], "choices": choices}))
-        rep.sample({"part": "B", "callers(apps)": v[0], "answer_script": v[1], "equal_generator_start": v[2], "preemption_bound": b,
+        rep.sample({"part": "B", "callers(apps)": v[0], "answer_script": v[1], "equal_generator_start": v[2], "preemption_bound": b, "bound_completed_without_cap": r.get("bound_completed", b), "capped": r.get("capped", False),
                     "executions": r["executions"], "distinct_outcomes": len(r["outcomes"]), "branching_points": r["max_points"]}, 30)
     rep.cov.update({"states": len(jobs) + execs + totc["states"], "transitions": total + execs + totc["transitions"],
                     "traces_validated_against_impl": len(jobs) + execs + totc["transitions"],
